@@ -4,6 +4,7 @@ package main
 // connection count the balancer reads, and what happens to connections when their host is removed.
 //   case line:  <policy rr|least|random> <nbackends> # ops
 //   ops: o (open a connection and keep it) | H (the same, and the backend then finishes its direction: a half-closed relay still counts) | c<i> (close the i-th kept connection) | d<b> / u<b> (backend b refuses / accepts)
+//        h<i> (the i-th kept connection's client finishes sending: a half-closed connection is still established) |
 //        r<b> (remove host b from the service) | a<b> (add it again) | U<n> (configuration update: another idle timeout, same policy)
 //   output per op:  o -> b<k> (backend reached) or fail;  then after every op the hosts' counts "n0,n1,.."
 //                   r<b> -> closed=<number of kept connections to b that saw end-of-stream>
@@ -26,7 +27,8 @@ import (
 )
 
 type c06Backend struct {
-	stubborn int32 // while set, a connection whose peer has finished is kept open for a while (a backend that ignores the FIN)
+	release  chan struct{} // closed at the end of a case: connections held open after their client finished may go
+	stubborn int32         // while set, a connection whose peer has finished is kept open for a while (a backend that ignores the FIN)
 	accepts  int64
 	mu       sync.Mutex
 	addr     string
@@ -49,16 +51,26 @@ func (b *c06Backend) serve() {
 				c.Write(b.hello) // tells the client which backend it reached
 				// a client that says 'H' gets this direction finished (half-close); what it sends is still read
 				one := make([]byte, 1)
+				hold := false
 				for {
 					n, err := c.Read(one)
 					if err != nil {
 						if err == io.EOF && atomic.LoadInt32(&b.stubborn) == 1 {
 							time.Sleep(2500 * time.Millisecond)
+						} else if err == io.EOF && hold && b.release != nil {
+							// its client has finished sending ('h'): the backend keeps its side open
+							select {
+							case <-b.release:
+							case <-time.After(6 * time.Second):
+							}
 						}
 						return
 					}
 					if n == 1 && one[0] == 'H' {
 						c.(*net.TCPConn).CloseWrite()
+					}
+					if n == 1 && one[0] == 'h' {
+						hold = true
 					}
 				}
 			}()
@@ -139,7 +151,7 @@ func runC06tcp(line string) string {
 			continue
 		}
 		ln, _ := net.Listen("tcp", "127.0.0.1:0")
-		b := &c06Backend{addr: ln.Addr().String(), ln: ln, idx: i, hello: []byte{byte('0' + i)}}
+		b := &c06Backend{addr: ln.Addr().String(), ln: ln, idx: i, hello: []byte{byte('0' + i)}, release: make(chan struct{})}
 		b.serve()
 		bes = append(bes, b)
 		hosts = append(hosts, host.New(b.addr))
@@ -189,6 +201,7 @@ func runC06tcp(line string) string {
 		open bool
 	}
 	var ks []*kept
+	halfClosed := map[int]bool{}
 	var outs, annotated []string
 	counts := func() string {
 		var xs []string
@@ -298,8 +311,20 @@ func runC06tcp(line string) string {
 			nc.LbPolicy = cfg.LbPolicy
 			nc.IdleTimeout = utils.DurationPtr(time.Duration(601+arg) * time.Second)
 			p.OnSvcConfigUpdate(nc)
-		case 'c':
+		case 'h':
+			// the client has finished sending (half-close); the connection stays established and counted
 			if arg < len(ks) && ks[arg].open {
+				if tc, ok := ks[arg].c.(*net.TCPConn); ok {
+					tc.Write([]byte("h"))
+					time.Sleep(5 * time.Millisecond)
+					tc.CloseWrite()
+					halfClosed[arg] = true
+				}
+			}
+		case 'c':
+			// (a connection whose client has already finished sending is left alone: once it closes for good the relay
+			// cannot tell before the backend says something)
+			if arg < len(ks) && ks[arg].open && !halfClosed[arg] {
 				ks[arg].c.Close()
 				ks[arg].open = false
 			}
@@ -365,6 +390,11 @@ func runC06tcp(line string) string {
 		}
 	}
 	c06Annotated = hd[0] + " # " + strings.Join(annotated, " ")
+	for _, b := range bes {
+		if b.release != nil {
+			close(b.release)
+		}
+	}
 	for _, k := range ks {
 		if k.open {
 			k.c.Close()
@@ -399,7 +429,7 @@ func init() {
 			lines = readLines(*fIn)
 		} else {
 			r := newRng(*fSeed)
-			lines = append(lines, "least 2 # d0 o o o o o o u0 o o c0 c1 o", "rr 3 # o o o o o o r1 o o o a1 o o o", "rr 3 # o U0 o o U1 o o o U2 o o o U3 o", "least 2 # H H H o o o c0 o c1 o o", "rr 4 # d0 o o o o u0 o o o o o o o o", "rr 3 # o d1 o o o u1 o o o o o o",
+			lines = append(lines, "least 2 # d0 o o o o o o u0 o o c0 c1 o", "rr 3 # o o o o o o r1 o o o a1 o o o", "rr 3 # o U0 o o U1 o o o U2 o o o U3 o", "least 2 # H H H o o o c0 o c1 o o", "rr 4 # d0 o o o o u0 o o o o o o o o", "rr 2 # o o o o h0 h1 r0 h2 r1", "rr 3 # o d1 o o o u1 o o o o o o",
 				"rr 3 bh # O0 O1 O0 O1 O0 O1 O0 O1 O0", "random 3 bh # O1 O0 O1 O0 O1 O0 O1 O0 O1 O0")
 			for i := 0; i < *fN; i++ {
 				nb := 2 + r.intn(2)
@@ -431,6 +461,10 @@ func init() {
 							break
 						}
 					case 9:
+						if nk > 0 && r.chance(1, 2) {
+							ops = append(ops, fmt.Sprintf("h%d", r.intn(nk)))
+							continue
+						}
 						ops = append(ops, "H")
 						nk++
 					default:
